@@ -35,6 +35,31 @@ type kase struct {
 	Where int    `json:"where,omitempty"`
 	Feats []fdef `json:"feats,omitempty"`
 	Vals  []int  `json:"vals,omitempty"` // Trim: (limit - e) in quarters
+	// After: a call the package must REJECT, made on other objects of the same type directly before the
+	// call of the case (what a rejected call leaves behind must not reach the next caller):
+	// truncate-outside, join-circular, stitch-inverted, compose-inverted
+	After string `json:"after,omitempty"`
+}
+
+// rejected makes the call named by k.After; a panic or a missing error there is not this family's business.
+func rejected(k kase) {
+	if k.After == "" {
+		return
+	}
+	defer func() { recover() }()
+	src := mk(k, 5, 1, false, 3)
+	dst := empty(k)
+	switch k.After {
+	case "truncate-outside":
+		sequtils.Truncate(dst, src, 3, 9)
+	case "join-circular":
+		sequtils.Join(mk(k, 3, 0, true, 0), src, seq.End)
+	case "stitch-inverted":
+		// two good features that sort first, then one whose end lies before its start
+		sequtils.Stitch(dst, src, mkFeats([]fdef{{5, 3, 2}, {1, 2, 2}, {3, 4, 2}}))
+	case "compose-inverted":
+		sequtils.Compose(dst, src, mkFeats([]fdef{{1, 2, 1}, {3, 4, -1}, {5, 3, 1}}))
+	}
 }
 
 const dnaLetters = "acmgrsvtwyhkdbn" // all distinct, all paired in DNAredundant
@@ -170,6 +195,7 @@ func (q *qfeat) EAt(i int) float64      { return q.e[i-q.off] }
 
 func check(c *enum.Ctx, k kase) {
 	fail := func(class, f string, a ...interface{}) { c.Fail(k.Kind+"/"+class, k, "%s", fmt.Sprintf(f, a...)) }
+	rejected(k)
 	wq := k.Q
 	switch k.Kind {
 	case "truncate":
@@ -373,7 +399,7 @@ func check(c *enum.Ctx, k kase) {
 }
 
 func run(c *enum.Ctx) {
-	c.Rule("Truncate: every (start,end) in [off-2,off+L+2]^2 for L=0..5 (thorough 6), offsets {-2,0,3}, linear/circular, dst==src, a fresh dst and a dst that already holds an earlier (longer circular / one-letter) result, linear.Seq and linear.QSeq; Join: all length pairs 0..3 x both ends x conformations; Stitch/Compose: every list of <=2 (thorough 3) features whose interval intersects or abuts the sequence within [off-1,off+L+1], orientation forward/reverse/none/not-an-Orienter, complementing (DNAredundant) and non-complementing (Protein) alphabets, both sequence types, dst==src / fresh / previously used, L=0..4; Trim: every vector of length 0..6 (thorough 7) over (limit-e) in {-2,-1,0,1,2}/4 at offsets {0,3}; all positions carry distinct letters (and qualities); non-trivial = cases where the operation is expected to succeed on a non-empty result")
+	c.Rule("Truncate: every (start,end) in [off-2,off+L+2]^2 for L=0..5 (thorough 6), offsets {-2,0,3}, linear/circular, dst==src, a fresh dst and a dst that already holds an earlier (longer circular / one-letter) result, linear.Seq and linear.QSeq; Join: all length pairs 0..3 x both ends x conformations; Stitch/Compose: every list of <=2 (thorough 3) features whose interval intersects or abuts the sequence within [off-1,off+L+1], orientation forward/reverse/none/not-an-Orienter, complementing (DNAredundant) and non-complementing (Protein) alphabets, both sequence types, dst==src / fresh / previously used, L=0..4; Trim: every vector of length 0..6 (thorough 7) over (limit-e) in {-2,-1,0,1,2}/4 at offsets {0,3}; every Truncate/Join case again directly after a rejected call of the same function, every Stitch/Compose case after a rejected Stitch and a rejected Compose (an inverted feature behind two good ones) on other sequences; all positions carry distinct letters (and qualities); non-trivial = cases where the operation is expected to succeed on a non-empty result")
 	c.Assume("Compose features are at least abutting the sequence (a feature entirely outside is out of scope)", "Trim: an empty window is accepted anywhere; values are dyadic so sums are exact")
 	maxL, maxF, maxT := 5, 2, 6
 	if !c.Quick {
@@ -417,6 +443,11 @@ func run(c *enum.Ctx) {
 			c.Eval()
 			check(c, cases[i])
 			nt.Add(enum.J(cases[i]))
+			// ... and directly after a rejected call of the same function
+			k := cases[i]
+			k.After = map[string]string{"truncate": "truncate-outside", "join": "join-circular"}[k.Kind]
+			c.Eval()
+			check(c, k)
 		}
 		c.Merge(nt)
 	})
@@ -472,6 +503,16 @@ func run(c *enum.Ctx) {
 			check(c, k)
 			if len(prefix) > 0 {
 				nt.Add(enum.J(k))
+			}
+			// ... and directly after a rejected Stitch / Compose (feature list with an inverted feature)
+			for _, after := range []string{"stitch-inverted", "compose-inverted"} {
+				if len(prefix) == maxF && after[:3] != g.kind[:3] {
+					continue
+				}
+				ka := k
+				ka.After = after
+				c.Eval()
+				check(c, ka)
 			}
 			if len(prefix) == 2 && g.L == 4 && g.off == 3 && c.WantSample() {
 				c.Sample(k)
